@@ -171,6 +171,7 @@ package bellatrix
 //@     invariant ctx_t > old(ctx_t) ==> !ctx_cancelled(ctx, old(ctx_t))
 //@   assigns ghost(n_eng_notify), ghost(n_set_exec_header)
 //@   assigns ghost(n_set_bal)
+//@   assigns ghost(n_set_pflag)
 //@   assigns ghost(n_vote_append), ghost(last_vote_append), ghost(n_set_eth1), ghost(set_eth1)
 //@   assigns ghost(n_set_mix), ghost(last_set_mix_epoch), ghost(last_set_mix)
 //@   assigns ghost(n_set_lhdr), ghost(set_lhdr)
